@@ -338,7 +338,7 @@ var validMethods = allMethods[3:] // everything but the three registrations
 func (g *hgen) register(id int) Op {
 	w := g.r.w
 	switch x := g.in(100); {
-	case x < 50 || (x < 100 && g.noRegistered()):
+	case x < 40 || (x < 100 && g.noRegistered()):
 		k := g.in(len(w.keys))
 		o := Op{M: "regIDWithPublicKey", ID: id, Key: keyBlob(k), Sig: []int{g.keyAddr(k)}}
 		if g.p(5) {
@@ -359,7 +359,16 @@ func (g *hgen) register(id int) Op {
 		return o
 	case x < 75: // single controller
 		c := g.regularID()
-		if g.p(8) {
+		var cands []int
+		for i := 0; i < 5; i++ {
+			if g.st[i].Flag == 1 && len(g.keysOf(i, live)) > 0 {
+				cands = append(cands, i)
+			}
+		}
+		if len(cands) > 0 && g.p(85) {
+			c = cands[g.in(len(cands))]
+		}
+		if g.p(6) {
 			c = g.weirdID()
 		}
 		pr, sig := g.ctrlProof(w.ids[c])
@@ -585,6 +594,12 @@ func (g *hgen) next() Op {
 		cand = validMethods
 	}
 	m := cand[g.in(len(cand))]
+	if g.p(6) {
+		side := []string{"addService", "addService", "updateService", "removeService", "addContext", "addContext", "removeContext"}
+		o := Op{M: side[g.in(len(side))], ID: id, Path: 1 + g.in(3), KIdx: uint64(g.in(5))}
+		o.Idx, o.Sig = g.ownWitness(id)
+		return o
+	}
 	// revocation ends an identity's story: keep it rarer
 	if (m == "revokeID" || m == "revokeIDByController") && g.p(35) {
 		m = "addKeyByIndex"
@@ -602,12 +617,18 @@ func (r *runner) genHistory(rng *rand.Rand, n int, tag string) *History {
 	w := r.w
 	w.reset()
 	h := &History{Tag: tag}
+	// a third of the histories start on the old code path
+	nLegacy := 0
+	if legacyPossible() && rng.Intn(3) == 0 {
+		nLegacy = 6 + rng.Intn(10)
+	}
 	for len(h.Ops) < n {
 		g.st = w.dumpAll()[:nPoolIDs]
 		o := g.next()
+		o.Legacy = len(h.Ops) < nLegacy && !sideMethods[o.M]
 		e := w.encode(&o)
 		var sig = r.signerAddrs(&o)
-		w.call(sig, o.M, e.args)
+		w.call(o.Legacy, sig, o.M, e.args)
 		h.Ops = append(h.Ops, o)
 	}
 	for _, id := range w.ids[nPoolIDs:] {
